@@ -7,6 +7,7 @@ import (
 	"encoding/json"
 	"fmt"
 	"math/rand"
+	"os"
 	"strings"
 
 	mxj "github.com/clbanning/mxj/v2"
@@ -57,6 +58,12 @@ func (g *xgen) elem(depth int) *xNode {
 		kids := g.r.Intn(6)
 		if depth < 3 && kids > 3 {
 			kids = 3
+		}
+		if g.r.Intn(12) == 0 {
+			// a WIDE element: 13 to 40 children, identically named siblings interleaved with others
+			// (library sort routines switch algorithm above a dozen entries)
+			kids = 13 + g.r.Intn(28)
+			depth = 1
 		}
 		for i := 0; i < kids; i++ {
 			if !comment && g.r.Intn(12) == 0 {
@@ -149,16 +156,31 @@ func recordXml(seed int64, n int, w *bufio.Writer, a *Acc) {
 		kind := kinds[g.r.Intn(len(kinds))]
 		switch {
 		case kind == "dec":
+			emit(w, observeXml("dec", d, variant))
+			if events < 40 && countElems(d) > 4 {
+				a.Sample(map[string]interface{}{"op": "dec", "document": string(renderDoc(d, variant)), "options": fmt.Sprint(mxj.VerifOptions()["attrPrefix"], mxj.VerifOptions()["lower"], mxj.VerifOptions()["snake"])})
+			}
+		case kind == "rt":
+			emit(w, observeXml("rt", d, variant))
+		default:
+			emit(w, observeXml("seq", d, variant))
+		}
+	}
+	a.Count(events, nontriv)
+}
+
+// observeXml makes one codec call of the given class on the real package and returns the event to log
+func observeXml(kind string, d *xNode, variant int) map[string]interface{} {
+	{
+		switch {
+		case kind == "dec":
 			doc := renderDoc(d, variant)
 			m, err := mxj.NewMapXml(doc)
 			ev := map[string]interface{}{"op": "dec", "d": d, "err": cls(err), "r": tagged.FromGo(map[string]interface{}(m))}
 			if err != nil {
 				ev["r"] = tagged.FromGo(map[string]interface{}{})
 			}
-			emit(w, ev)
-			if events < 40 && countElems(d) > 4 {
-				a.Sample(map[string]interface{}{"op": "dec", "document": string(doc), "options": fmt.Sprint(mxj.VerifOptions()["attrPrefix"], mxj.VerifOptions()["lower"], mxj.VerifOptions()["snake"]), "result": short(tagged.CanonGo(m))})
-			}
+			return ev
 		case kind == "rt":
 			// decode, encode (compact), decode again; the validity check is set aside for the encode (bytes are compared)
 			doc := renderDoc(d, variant)
@@ -178,7 +200,7 @@ func recordXml(seed int64, n int, w *bufio.Writer, a *Acc) {
 					}
 				}
 			}
-			emit(w, ev)
+			return ev
 		default:
 			// sequence codec: the document starts with its root element (no declaration: that is the NoRoot case)
 			var sb strings.Builder
@@ -194,11 +216,73 @@ func recordXml(seed int64, n int, w *bufio.Writer, a *Acc) {
 				mxj.XmlCheckIsValid(cv)
 				ev["x"], ev["encerr"] = string(b), cls(e1)
 			}
-			emit(w, ev)
+			return ev
 		}
 	}
-	a.Count(events, nontriv)
 }
+
+// mxjconf rerun xml <replay-file> <trace-out>: the session of a rejected event (with its context sessions) is executed
+// AGAIN on the real package and the fresh observations are written as a trace -- for defects that do not repeat the
+// same wrong answer (hash iteration order) the verdict is the trace specification's, on the new observations
+func rerunXml(args []string) {
+	if len(args) < 2 {
+		fmt.Fprintln(os.Stderr, "usage: mxjconf rerunxml <replay-file> <trace-out>")
+		os.Exit(2)
+	}
+	b, err := os.ReadFile(args[0])
+	if err != nil {
+		fmt.Fprintln(os.Stderr, err)
+		os.Exit(2)
+	}
+	var r struct {
+		Case json.RawMessage `json:"case"`
+		Ctx  []string        `json:"ctx"`
+	}
+	if err := json.Unmarshal(b, &r); err != nil {
+		fmt.Fprintln(os.Stderr, err)
+		os.Exit(2)
+	}
+	lines := r.Ctx
+	if len(lines) == 0 {
+		lines = []string{string(r.Case)}
+	}
+	f, _ := os.Create(args[1])
+	w := bufio.NewWriter(f)
+	defer restoreAllOptions()
+	for _, l := range lines {
+		var c struct {
+			Session []map[string]json.RawMessage `json:"session"`
+		}
+		if json.Unmarshal([]byte(l), &c) != nil {
+			continue
+		}
+		for _, e := range c.Session {
+			var op, fn, arg string
+			json.Unmarshal(e["op"], &op)
+			switch op {
+			case "reset":
+				restoreAllOptions()
+				emit(w, map[string]interface{}{"op": "reset"})
+			case "set":
+				json.Unmarshal(e["fn"], &fn)
+				json.Unmarshal(e["arg"], &arg)
+				applyCall(fn, arg)
+				emit(w, map[string]interface{}{"op": "set", "fn": fn, "arg": arg})
+			case "dec", "rt", "seq":
+				var d xNode
+				if json.Unmarshal(e["d"], &d) == nil {
+					for variant := 0; variant < 3; variant++ {
+						emit(w, observeXml(op, &d, variant))
+					}
+				}
+			}
+		}
+	}
+	w.Flush()
+	f.Close()
+}
+
+func init() { extraCmds["rerunxml"] = rerunXml }
 
 // replay of a rejected session (mxjconf one): the events are re-executed; reproduced iff the real code
 // produces the logged observations again
